@@ -18,10 +18,13 @@ import (
 	"errors"
 	"fmt"
 	"log/slog"
+	"net"
+	"os"
 	"strconv"
 	"strings"
 	"time"
 
+	"rivaas.dev/app"
 	"rivaas.dev/logging"
 	"verif/harness/hx"
 )
@@ -46,6 +49,10 @@ type stepT struct {
 }
 
 type bcaseT struct {
+	// App: the history runs through a real app.App — StartBuffering is the one app.New performs,
+	// FlushBuffer the one App.Start performs after the banner (App.flushStartupLogs); one worker,
+	// logs go through App.BaseLogger()
+	App    bool `json:",omitempty"`
 	Custom bool `json:",omitempty"`
 	Progs  [][]bopT
 	Sched  []stepT
@@ -219,6 +226,9 @@ const (
 // runB executes the case. If k.Sched is empty the schedule is drawn from r (and recorded in the
 // returned case); otherwise the recorded schedule is followed. ok=false: a worker got stuck or panicked.
 func runB(k bcaseT, r *hx.Rand) (bcaseT, []evT, bool, map[string]int) {
+	if k.App {
+		return runApp(k)
+	}
 	n := len(k.Progs)
 	c := &conductor{c: k, resp: make(chan workerMsg), fail: map[[2]int]bool{}}
 	for w, p := range k.Progs {
@@ -385,6 +395,19 @@ func runB(k bcaseT, r *hx.Rand) (bcaseT, []evT, bool, map[string]int) {
 
 func emitBuffer(id string, k bcaseT, r *hx.Rand, st *hx.Stats) string {
 	k2, trace, ok, stats := runB(k, r)
+	if k.App {
+		// the only way an app-mode case fails to run is its ephemeral port being taken meanwhile:
+		// retry, and if it keeps failing discard the case (counted), never fail it
+		for attempt := 0; !ok && attempt < 3; attempt++ {
+			k2, trace, ok, stats = runB(k, r)
+		}
+		if !ok {
+			if st != nil {
+				st.Count("buffer_app_discarded")
+			}
+			return "# " + id + " discarded: the app did not start (port taken?)"
+		}
+	}
 	l := hx.NewLine(id).Tok("B").Bool(k2.Custom).Nat(len(k2.Progs))
 	nlog, hasV, hasH, hasFail, hasDerived, hasStale := 0, false, false, false, false, false
 	for _, p := range k2.Progs {
@@ -438,7 +461,9 @@ func emitBuffer(id string, k bcaseT, r *hx.Rand, st *hx.Stats) string {
 		// between StartBuffering and FlushBuffer with a record buffered
 		window := stats["switch_during_flush"] > 0 || setLevelWhileBuffered(k2, trace)
 		st.Case(in[len(id):], window)
-		if k2.Custom {
+		if k2.App {
+			st.Count("buffer_through_app")
+		} else if k2.Custom {
 			st.Count("buffer_gated")
 		} else {
 			st.Count("buffer_ungated")
@@ -570,5 +595,86 @@ func fixedBuffer() []bcaseT {
 		{Progs: [][]bopT{{S, lg(0, 3, false), {K: "L", L: &logT{Seq: 1, Lvl: 3, Stale: true}}, F}}, Sched: r0(4)},
 		// the documented use: start, log, flush on one goroutine; level filtering; shutdown
 		{Progs: [][]bopT{{S, lg(0, 1, false), lg(1, 0, false), lg(2, 3, true), F, lg(3, 2, false), {K: "H"}, lg(4, 3, false), lg(5, 3, true)}}, Sched: r0(9)},
+	}
+}
+
+// ---- app mode: the startup buffer of a real app.App (anchor app/server.go flushStartupLogs) ----
+
+func runApp(k bcaseT) (out bcaseT, trace []evT, ok bool, stats map[string]int) {
+	stats = map[string]int{}
+	out = k
+	out.Sched = nil
+	c := &conductor{c: k, fail: map[[2]int]bool{}}
+	defer func() {
+		if r := recover(); r != nil {
+			fmt.Fprintln(os.Stderr, "c20 app mode:", r)
+			trace, ok = c.trace, false
+		}
+	}()
+	// the banner goes to os.Stdout, which carries the case lines
+	devnull, err := os.OpenFile(os.DevNull, os.O_WRONLY, 0)
+	if err != nil {
+		panic(err)
+	}
+	saved := os.Stdout
+	os.Stdout = devnull
+	defer func() { os.Stdout = saved; devnull.Close() }()
+
+	var a *app.App
+	ctx, cancel := context.WithCancel(context.Background())
+	defer cancel()
+	startErr := make(chan error, 1)
+	ready := make(chan struct{})
+	for i, op := range k.Progs[0] {
+		out.Sched = append(out.Sched, stepT{Run: true, G: 0})
+		c.trace = append(c.trace, evT{K: 'b', G: 0, I: i})
+		switch op.K {
+		case "S": // app.New creates the logger and starts buffering
+			a, err = app.New(app.WithServiceName("c20"), app.WithServiceVersion("1.0.0"), app.WithHost("127.0.0.1"), app.WithPort(freePort()),
+				app.WithObservability(app.WithLogging(logging.WithJSONHandler(), logging.WithOutput(traceWriter{c}))))
+			if err != nil {
+				panic(err)
+			}
+			a.OnReady(func() { close(ready) })
+		case "L":
+			a.BaseLogger().Log(context.Background(), slogLevels[op.L.Lvl], msgOf(0, op.L))
+		case "F": // App.Start prints the banner, then flushes the startup logs, then reports ready
+			go func() { startErr <- a.Start(ctx) }()
+			select {
+			case <-ready:
+			case e := <-startErr:
+				panic(fmt.Sprint("app did not start: ", e))
+			case <-time.After(20 * time.Second):
+				panic("app start timed out")
+			}
+		}
+		c.trace = append(c.trace, evT{K: 'd', G: 0, I: i})
+	}
+	trace = append([]evT(nil), c.trace...)
+	cancel()
+	select {
+	case <-startErr:
+	case <-time.After(20 * time.Second):
+	}
+	return out, trace, true, stats
+}
+
+// freePort asks the kernel for an unused loopback port (ephemeral; a clash makes Start fail, which the
+// case reports as X and the check as a broken correspondence, never as a property failure)
+func freePort() int {
+	l, err := net.Listen("tcp", "127.0.0.1:0")
+	if err != nil {
+		panic(err)
+	}
+	defer l.Close()
+	return l.Addr().(*net.TCPAddr).Port
+}
+
+// fixedApp: startup logs through a real app (one worker: S, logs, F, logs)
+func fixedApp() []bcaseT {
+	S, F := bopT{K: "S"}, bopT{K: "F"}
+	return []bcaseT{
+		{App: true, Progs: [][]bopT{{S, lg(0, 1, false), lg(1, 3, false), lg(2, 0, false), lg(3, 2, false), F, lg(4, 1, false)}}},
+		{App: true, Progs: [][]bopT{{S, F, lg(0, 3, false)}}},
 	}
 }
